@@ -8,7 +8,7 @@ EXTENDS Naturals, Sequences, FiniteSets, TLC, Json, SequencesExt, IOUtils
 
 Key == {"k1", "k2"}
 Ctx == {"", "c1", "c2", "c1c1"}
-Salt == {"nil", "empty", "s1", "s2"}
+Salt == {"nil", "empty", "s1", "s2", "s1z", "L1", "L2"}   \* s1z = s1 + a zero byte; L1, L2: 40 bytes sharing their first 32
 OutLen == {0, 1, 16, 32, 64, 1000}
 In == [k : Key, ctx : Ctx, salt : Salt]
 Cases == [a : In, b : In, len : OutLen]
